@@ -97,10 +97,12 @@ def _fixed_program(report, prog, matrix, family):
     sections = {}
     cur = None
     for l in outs[ref_label]:
+        if l == "END":
+            break
         if l.startswith("== "):
             cur = l[3:]
             sections[cur] = []
-        elif cur is not None and l != "END":
+        elif cur is not None:
             sections[cur].append(l)
     if "END" not in outs[ref_label]:
         report.violation({"program": src, "build": ref_label, "observed": outs[ref_label][:5], "found_by": "API program", "no_failing_input_found": False},
@@ -312,6 +314,8 @@ def replay(payload):
         if "build" in outs and payload.get("section"):
             secs, cur = {}, None
             for l in outs["build"]:
+                if l == "END":
+                    break
                 if l.startswith("== "):
                     cur = l[3:]
                     secs[cur] = []
